@@ -13,15 +13,29 @@ import (
 
 // a tracked fake socket
 type zzSock struct {
-	id     int
-	closes int
-	dests  []net.Addr
-	gone   chan struct{}
+	id      int
+	closes  int
+	dests   []net.Addr
+	gone    chan struct{}
+	in      chan []byte   // datagrams arriving on this socket
+	timeout chan struct{} // the read deadline expires
 }
 
+type zzTimeoutErr struct{}
+
+func (zzTimeoutErr) Error() string   { return "i/o timeout" }
+func (zzTimeoutErr) Timeout() bool   { return true }
+func (zzTimeoutErr) Temporary() bool { return true }
+
 func (s *zzSock) ReadFrom(p []byte) (int, net.Addr, error) {
-	<-s.gone
-	return 0, nil, net.ErrClosed
+	select {
+	case b := <-s.in:
+		return copy(p, b), &net.UDPAddr{IP: net.IP{127, 0, 0, 1}, Port: 20000}, nil
+	case <-s.timeout:
+		return 0, nil, zzTimeoutErr{}
+	case <-s.gone:
+		return 0, nil, net.ErrClosed
+	}
 }
 func (s *zzSock) WriteTo(p []byte, addr net.Addr) (int, error) {
 	if s.closes > 0 {
@@ -62,9 +76,20 @@ func (l *zzListener) listen() (net.PacketConn, error) {
 		l.failNext = false
 		return nil, errors.New("listen failed")
 	}
-	s := &zzSock{id: len(l.socks), gone: make(chan struct{})}
+	s := &zzSock{id: len(l.socks), gone: make(chan struct{}), in: make(chan []byte, 4), timeout: make(chan struct{}, 1)}
 	l.socks = append(l.socks, s)
 	return s, nil
+}
+
+// the open sockets, oldest first
+func (l *zzListener) openSocks() []*zzSock {
+	var out []*zzSock
+	for _, s := range l.socks {
+		if s.closes == 0 {
+			out = append(out, s)
+		}
+	}
+	return out
 }
 
 func (l *zzListener) open() int {
@@ -85,7 +110,7 @@ func (l *zzListener) open() int {
 // point; a failed listen skips the hop and opens nothing; after Close every
 // socket ever opened is closed, writes fail and the timer opens nothing more.
 //
-//verif:harness kind=api replay=native+sched unwind=200 preempt=1 bound=events<=3(quick)/4(thorough),ports={20000,20001,20005},interval=30s,concurrent-close-during-any-listen
+//verif:harness kind=api replay=native+sched unwind=200 preempt=1 bound=events<=3(quick)/4(thorough),ports={20000,20001,20005},interval=30s,concurrent-close-during-any-listen,datagrams-on-current/previous-socket,read-timeouts
 func ZZ_C19_HopCensus() {
 	pu := utils.ParsePortUnion("20000-20001,20005")
 	addr := &UDPHopAddr{IP: net.IP{127, 0, 0, 1}, Ports: pu.Ports(), PortStr: "20000-20001,20005"}
@@ -105,12 +130,54 @@ func ZZ_C19_HopCensus() {
 		u.Close()
 		close(closer)
 	}()
+	// the application reads in its own goroutine; timeouts are reported and reading goes on
+	var got []byte
+	timeouts, readerDone := 0, false
+	go func() {
+		buf := make([]byte, 8)
+		for {
+			n, _, err := pc.ReadFrom(buf)
+			if err != nil {
+				if te, ok := err.(net.Error); ok && te.Timeout() {
+					timeouts++
+					continue
+				}
+				readerDone = true
+				return
+			}
+			if n == 1 {
+				got = append(got, buf[0])
+			}
+		}
+	}()
+	var injected []byte
 	steps := 3
 	if verifThorough() {
 		steps = 4
 	}
 	for s := 0; s < steps; s++ {
-		switch verifChoice("event", 4) {
+		switch verifChoice("event", 6) {
+		case 4: // a datagram arrives on the current or on the previous socket
+			open := l.openSocks()
+			if len(open) == 0 {
+				break
+			}
+			sk := open[len(open)-1]
+			if len(open) == 2 && verifChoice("onPrevious", 2) == 1 {
+				sk = open[0]
+				verifCover("arrived-on-previous")
+			}
+			id := byte(1 + len(injected))
+			injected = append(injected, id)
+			sk.in <- []byte{id}
+		case 5: // the read deadline expires on every open socket
+			for _, sk := range l.openSocks() {
+				select {
+				case sk.timeout <- struct{}{}:
+				default:
+				}
+			}
+			verifCover("read-timeout")
 		case 0: // the hop timer fires
 			before := len(l.socks)
 			wasClosed := u.closed
@@ -148,6 +215,11 @@ func ZZ_C19_HopCensus() {
 			verifCover("close")
 		}
 		verifQuiesce()
+		// delivery: what arrived on the current or the previous socket reached the reader, once, in order of arrival
+		verifAssert(len(got) == len(injected), "every datagram that arrived on the current or the previous socket is delivered, once")
+		for i := range got {
+			verifAssert(i >= len(injected) || got[i] == injected[i], "in order of arrival, unaltered")
+		}
 		// census
 		verifAssert(l.open() <= 2, "at most two sockets (previous and current) are open at a quiescent point")
 		for _, sk := range l.socks {
@@ -171,6 +243,7 @@ func ZZ_C19_HopCensus() {
 	verifAdvance(int64(61 * time.Second))
 	verifQuiesce()
 	verifAssert(l.open() == 0, "and stays so: the hop timer opens nothing after Close")
+	verifAssert(readerDone, "after Close reads fail")
 	// release the helper goroutine if it never fired
 	select {
 	case l.trigger <- struct{}{}:
